@@ -302,6 +302,7 @@ def nearest_coord(coords, x):
 
 KNOWN_ELEV_DTYPE = 'observer-elev-added-in-raster-dtype'
 KNOWN_SINGLE_LINE = 'single-row-or-column-all-invisible'
+KNOWN_ELEV_SCALAR = 'observer-elev-added-in-scalar-dtype'
 
 
 def effective_grid(case):
@@ -309,17 +310,33 @@ def effective_grid(case):
     dt = case.get('dtype', 'float64')
     if dt == 'float64':
         return [[float(v) for v in row] for row in case['grid']]
-    a = np.array(case['grid'], dtype='float64').astype(dt).astype('float64')
+    a = np.array(case['grid'], dtype='float64').astype(dt)
+    if case.get('int_offset'):
+        a = a + np.array(case['int_offset'], dtype=dt)
+    a = a.astype('float64')
     return [[float(v) for v in row] for row in a.tolist()]
 
 
 def impl_observer_elev(case):
     """observer_elev as run_impl passes it (a Python int for integer rasters when it is integral)"""
     oe = case['observer_elev']
+    if case.get('oe_type'):
+        return conv_scalar(oe, case['oe_type'])
     dt = case.get('dtype', 'float64')
     if (dt.startswith('int') or dt.startswith('uint')) and float(oe) == int(oe):
         oe = int(oe)
     return oe
+
+
+def conv_scalar(v, t):
+    """a scalar parameter in the Python / NumPy type named t (the case stores its exact float64 value)"""
+    if t == 'int':
+        return int(v)
+    if t == 'float':
+        return float(v)
+    if t == 'bool':
+        return bool(v)
+    return getattr(np, t)(v)
 
 
 def elev_dtype_class(case, vr, vc):
@@ -343,6 +360,19 @@ def single_line_class(case):
     return (len(g) == 1 or len(g[0]) == 1) and len(g) * len(g[0]) > 1
 
 
+def elev_scalar_class(case, vr, vc):
+    """input class of the defect 'observer height added in the dtype of a NumPy scalar observer_elev': observer_elev is
+    a NumPy floating scalar narrower than float64 and float(cell) + observer_elev, evaluated with NumPy's rules (a Python
+    float is weak: the sum stays in the scalar's type), differs from the double-precision sum"""
+    if case.get('oe_type') not in ('float32', 'float16'):
+        return False
+    v = effective_grid(case)[vr][vc]
+    oe = impl_observer_elev(case)
+    with np.errstate(all='ignore'):
+        got = float(float(v) + oe)
+    return got != float(v) + float(oe)
+
+
 def known_class(case):
     """the key of the recorded defect whose input class contains this case, or None"""
     if single_line_class(case):
@@ -352,6 +382,8 @@ def known_class(case):
         vc = xs.index(nearest_coord(xs, case['x'])); vr = ys.index(nearest_coord(ys, case['y']))
         if elev_dtype_class(case, vr, vc):
             return KNOWN_ELEV_DTYPE
+        if elev_scalar_class(case, vr, vc):
+            return KNOWN_ELEV_SCALAR
     return None
 
 
@@ -379,19 +411,149 @@ def oracle_expected(case):
 # ---------------------------------------------------------------------------------------------
 # implementation runner
 # ---------------------------------------------------------------------------------------------
-def run_impl(case):
+def build_values(case):
+    """the raster's array: logical values case['grid'] in the case's dtype and memory layout"""
+    dt = case.get('dtype', 'float64')
+    a = np.array(case['grid'], dtype='float64').astype(dt)
+    if case.get('int_offset'):
+        a = a + np.array(case['int_offset'], dtype=dt)
+    lay = case.get('layout', 'C')
+    R, C = a.shape
+    if lay == 'F':
+        a = np.asfortranarray(a)
+    elif lay == 'T':                         # transposed view of a C-contiguous array
+        a = np.ascontiguousarray(a.T).T
+    elif lay == 'strided':                   # every 2nd row / 3rd column of a larger array full of decoys
+        big = np.full((2 * R, 3 * C), 77, dtype=dt)
+        big[::2, ::3] = a
+        a = big[::2, ::3]
+    elif lay == 'offset':                    # interior window of a larger array
+        big = np.full((R + 2, C + 3), 77, dtype=dt)
+        big[1:R + 1, 2:C + 2] = a
+        a = big[1:R + 1, 2:C + 2]
+    elif lay == 'reversed':                  # negative strides on both axes
+        a = np.ascontiguousarray(a[::-1, ::-1])[::-1, ::-1]
+    elif lay == 'readonly':
+        a.setflags(write=False)
+    return a
+
+
+def build_raster(case, a=None):
+    cd = case.get('coord_dtype', 'float64')
+    a = build_values(case) if a is None else a
+    return xr.DataArray(a, dims=['y', 'x'], coords={'y': np.array(case['ys'], dtype='float64').astype(cd),
+                                                     'x': np.array(case['xs'], dtype='float64').astype(cd)})
+
+
+def call_viewshed(case, r, **over):
     from xrspatial import viewshed
-    a = np.array(case['grid'], dtype='float64').astype(case.get('dtype', 'float64'))
-    r = xr.DataArray(a, dims=['y', 'x'], coords={'y': np.array(case['ys'], dtype='float64'),
-                                                 'x': np.array(case['xs'], dtype='float64')})
-    oe, te = impl_observer_elev(case), case['target_elev']
+    te = case['target_elev']
+    if case.get('te_type'):
+        te = conv_scalar(te, case['te_type'])
+    x, y = case['x'], case['y']
+    if case.get('xy_type'):
+        x, y = conv_scalar(x, case['xy_type']), conv_scalar(y, case['xy_type'])
+    kw = dict(x=x, y=y, observer_elev=impl_observer_elev(case), target_elev=te)
+    kw.update(over)
+    if case.get('positional'):
+        return viewshed(r, kw['x'], kw['y'], kw['observer_elev'], kw['target_elev'])
+    return viewshed(r, **kw)
+
+
+def grid_of(out):
+    return [[float(v) for v in row] for row in np.asarray(out.values, dtype='float64').tolist()]
+
+
+def run_sequence(case):
+    """call sequences: repeated calls, calls on rasters derived from processed ones, interleaved parameters; the
+    result of the LAST call on the raster the case describes is returned; a string when an earlier identical call
+    answered differently or an input changed its logical values / coordinates"""
+    seq = case['seq']
+    g = np.array(effective_grid(case), dtype='float64')
+    R, C = g.shape
+    xs, ys = case['xs'], case['ys']
+    if seq == 'repeat':
+        r = build_raster(case)
+        o1 = grid_of(call_viewshed(case, r)); o2 = grid_of(call_viewshed(case, r)); o3 = grid_of(call_viewshed(case, r))
+        if not (same_grid(o1, o2) and same_grid(o2, o3)):
+            return 'SEQ: the same call on the same raster answered differently'
+        out, final = o3, r
+    elif seq == 'interleave':                # other observer / heights in between
+        r = build_raster(case)
+        o1 = grid_of(call_viewshed(case, r))
+        call_viewshed(case, r, x=xs[-1], y=ys[0], observer_elev=7.5, target_elev=3)
+        call_viewshed(case, r, x=xs[0], y=ys[-1], observer_elev=-1, target_elev=0)
+        out = grid_of(call_viewshed(case, r)); final = r
+        if not same_grid(o1, out):
+            return 'SEQ: the call answered differently after calls with other parameters'
+    elif seq in ('derived-slice', 'derived-step'):
+        dt = case.get('dtype', 'float64')
+        if seq == 'derived-slice':           # the case is an interior window of a processed raster
+            big = np.full((R + 2, C + 3), 9, dtype='float64'); big[1:R + 1, 2:C + 2] = g
+            dx = xs[1] - xs[0]; dy = ys[1] - ys[0]
+            bxs = [xs[0] - 2 * dx, xs[0] - dx] + list(xs) + [xs[-1] + dx]
+            bys = [ys[0] - dy] + list(ys) + [ys[-1] + dy]
+            sel = dict(y=slice(1, R + 1), x=slice(2, C + 2))
+        else:                                # the case is every 2nd column / row of a processed raster
+            big = np.full((2 * R - 1, 2 * C - 1), 9, dtype='float64'); big[::2, ::2] = g
+            bxs = [xs[i // 2] if i % 2 == 0 else (xs[i // 2] + xs[i // 2 + 1]) / 2 for i in range(2 * C - 1)]
+            bys = [ys[i // 2] if i % 2 == 0 else (ys[i // 2] + ys[i // 2 + 1]) / 2 for i in range(2 * R - 1)]
+            sel = dict(y=slice(0, None, 2), x=slice(0, None, 2))
+        rb = xr.DataArray(big.astype(dt), dims=['y', 'x'], coords={'y': np.array(bys), 'x': np.array(bxs)},
+                          attrs={'res': (123.0, 456.0)})
+        call_viewshed(case, rb, x=bxs[1], y=bys[-1])
+        d = rb.isel(**sel)
+        out = grid_of(call_viewshed(case, d)); final = d
+    elif seq == 'assign_coords':             # processed under other coordinates first; stale attrs['res']
+        r0 = xr.DataArray(build_values(case), dims=['y', 'x'],
+                          coords={'y': np.arange(R) * 10.0, 'x': np.arange(C) * 10.0}, attrs={'res': (10.0, 10.0)})
+        call_viewshed(case, r0, x=0.0, y=0.0)
+        r = r0.assign_coords(x=np.array(xs), y=np.array(ys))
+        out = grid_of(call_viewshed(case, r)); final = r
+    elif seq == 'copy':
+        r0 = build_raster(case)
+        call_viewshed(case, r0)
+        r = r0.copy(deep=True)
+        out = grid_of(call_viewshed(case, r)); final = r
+    elif seq == 'astype':                    # int raster processed, then converted
+        r0 = build_raster(case)
+        call_viewshed(case, r0)
+        r = r0.astype('float32').astype('float64')
+        out = grid_of(call_viewshed(case, r)); final = r
+    else:
+        raise AssertionError(seq)
+    after = np.asarray(final.values, dtype='float64')
+    if after.shape != g.shape or not np.array_equal(after, g):
+        return 'SEQ: the input raster\'s values changed'
+    if not (np.array_equal(np.asarray(final['x'].values, dtype='float64'), np.array(xs)) and
+            np.array_equal(np.asarray(final['y'].values, dtype='float64'), np.array(ys))):
+        return 'SEQ: the input raster\'s coordinates changed'
+    return out
+
+
+def run_impl(case):
     try:
-        out = viewshed(r, x=case['x'], y=case['y'], observer_elev=oe, target_elev=te)
+        if case.get('seq'):
+            return run_sequence(case)
+        a = build_values(case)
+        keep = a.copy()
+        r = build_raster(case, a)
+        out = call_viewshed(case, r)
+        res = grid_of(out)
+        if case.get('layout'):
+            # the caller's array (and whatever it is a view of) must be untouched
+            base = a if a.base is None else a.base
+            if not np.array_equal(a, keep):
+                return 'LAYOUT: the caller\'s array changed'
+            if out.shape != keep.shape or list(out.dims) != ['y', 'x']:
+                return 'LAYOUT: result shape %r' % (out.shape,)
+        return res
     except ValueError as e:
         return 'ValueError'
     except OverflowError as e:
         return 'OverflowError'
-    return [[float(v) for v in row] for row in out.values.tolist()]
+    except Exception as e:                   # any other exception type is an answer too (compared with the reference)
+        return 'Exception:%s' % type(e).__name__
 
 
 def same_grid(a, b):
@@ -1201,6 +1363,132 @@ def gen_cases(ctx):
         yield mk_case(rng, rng.choice(FAMILIES), R, C, vr, vc, off=['near', 'mid', 'out', 'near'][i % 4])
 
 
+def gen_theme_cases(ctx):
+    """round-5 theme audit: memory layouts, scalar / coordinate dtypes, magnitudes, call sequences, coordinates.
+    Appended after every other stream (earlier rng draws do not shift)."""
+    rng = ctx.rng
+    quick = ctx.quick()
+
+    def tag(case, label, **kw):
+        case['audit'] = label
+        case.update(kw)
+        return case
+    fams = ['dec', 'forest', 'ridge_diag', 'checker', 'stair', 'spike', 'pit', 'plateau']
+    # 1. memory layout of the raster argument (logical values identical; decoys 77 around strided / offset views)
+    for rep in range(1 if quick else 12):
+        for lay in ['F', 'T', 'strided', 'offset', 'reversed', 'readonly']:
+            for dt in ['float64', 'int32'] + ([] if quick else ['float32', 'uint8']):
+                R, C = rng.randint(3, 7), rng.randint(3, 7)
+                fam = rng.choice(fams if dt == 'float64' else ['forest', 'checker', 'spike', 'plateau', 'ridge_col'])
+                yield tag(mk_case(rng, fam, R, C, rng.randrange(R), rng.randrange(C), oe=rng.choice([0, 1, 2]), dtype=dt),
+                          'layout-' + lay, layout=lay)
+    # 2a. scalar parameters given as NumPy scalars / ints / bools of other widths (values exact in that type)
+    sc = [('np.float32-oe', dict(oe_type='float32'), dict(oe=2.5)),
+          ('np.float64-oe', dict(oe_type='float64'), dict(oe=2.5)),
+          ('np.int32-oe', dict(oe_type='int32'), dict(oe=2)),
+          ('np.int8-oe', dict(oe_type='int8'), dict(oe=-2)),
+          ('np.uint8-oe', dict(oe_type='uint8'), dict(oe=1)),
+          ('bool-oe', dict(oe_type='bool'), dict(oe=1)),
+          ('np.float32-te', dict(te_type='float32'), dict(te=0.5)),
+          ('np.int64-te', dict(te_type='int64'), dict(te=1)),
+          ('np.uint8-te', dict(te_type='uint8'), dict(te=2)),
+          ('bool-te', dict(te_type='bool'), dict(te=1)),
+          ('int-xy', dict(xy_type='int'), dict()),
+          ('np.int64-xy', dict(xy_type='int64'), dict()),
+          ('np.float32-xy', dict(xy_type='float32'), dict()),
+          ('positional', dict(positional=True), dict())]
+    for rep in range(1 if quick else 10):
+        for label, keys, kw in sc:
+            if quick and label in ('bool-te', 'np.uint8-te', 'np.float64-oe'):
+                continue                     # each new scalar type costs ~1 s of Numba specialisation: thorough only
+            R, C = rng.randint(3, 6), rng.randint(3, 6)
+            dt = rng.choice(['float64', 'float64', 'int64'])
+            fam = rng.choice(['forest', 'checker', 'spike', 'plateau'])
+            yield tag(mk_case(rng, fam, R, C, rng.randrange(R), rng.randrange(C), res=rng.choice([(1.0, 1.0), (2.0, -1.0)]),
+                              dtype=dt, **kw), 'scalar-' + label, **keys)
+    # 2b. observer / target heights that are NOT exact in the scalar's own type, on inexact terrain: the heights are the
+    #     float32 values the caller passed; sums must be formed in double precision
+    for rep in range(2 if quick else 20):
+        R, C = rng.randint(3, 6), rng.randint(4, 7)
+        case = mk_case(rng, 'flat', R, C, rng.randrange(R), rng.randrange(C), res=(1.0, 1.0), dtype='float64',
+                       oe=float(np.float32(rng.choice([0.3, 1.1, 0.7]))), te=float(np.float32(rng.choice([0.0, 0.1]))))
+        case['grid'] = [[rng.choice([0.1, 0.1, 0.3, 0.7, 1234.567]) for _ in range(C)] for _ in range(R)]
+        yield tag(case, 'scalar-float32-inexact', oe_type='float32', te_type='float32')
+    # 2c. magnitudes and exact ties: tiny / huge elevations and cell sizes, int64 beyond 2**53, float32 rasters beyond
+    #     2**24, observer one ulp above / below a level lake
+    for rep in range(1 if quick else 10):
+        for kind in range(10):
+            R, C = rng.randint(3, 6), rng.randint(3, 7)
+            vr, vc = rng.randrange(R), rng.randrange(C)
+            if kind < 4:
+                sc_, res = [(2.0 ** -60, (1.0, 1.0)), (2.0 ** 80, (1.0, 1.0)), (1.0, (2.0 ** -40, 2.0 ** -41)),
+                            (2.0 ** 50, (2.0 ** 45, 2.0 ** 45))][kind]
+                case = mk_case(rng, rng.choice(['dec', 'forest', 'stair']), R, C, vr, vc, res=res, dtype='float64',
+                               oe=rng.choice([0, 1, 2.5]) * (sc_ if sc_ != 1.0 else 2.0 ** -40))
+                case['grid'] = [[v * sc_ for v in row] for row in case['grid']]
+                yield tag(case, 'magnitude-%d' % kind)
+            elif kind == 4:      # int64 elevations beyond 2**53 (not exact in float64)
+                case = mk_case(rng, 'forest', R, C, vr, vc, oe=rng.choice([0, 1, 3]), dtype='int64')
+                yield tag(case, 'int64-above-2**53', int_offset=2 ** 53 + 1)
+            elif kind == 5:      # uint64 beyond 2**63
+                case = mk_case(rng, 'checker', R, C, vr, vc, oe=rng.choice([0, 2]), dtype='uint64')
+                yield tag(case, 'uint64-above-2**63', int_offset=2 ** 63 + 5)
+            elif kind == 6:      # float32 raster with integers beyond 2**24
+                case = mk_case(rng, 'forest', R, C, vr, vc, oe=rng.choice([0, 1]), dtype='float32')
+                case['grid'] = [[v + 2.0 ** 24 + 1 for v in row] for row in case['grid']]
+                yield tag(case, 'float32-above-2**24')
+            elif kind == 7:      # int32 near its limits
+                case = mk_case(rng, 'spike', R, C, vr, vc, oe=rng.choice([0, 1]), dtype='int32')
+                yield tag(case, 'int32-near-max', int_offset=2 ** 31 - 20)
+            else:                # level lake, observer one ulp above (8) / below (9) it; target one ulp too
+                h = rng.choice([0.1, 1234.567, 1.0])
+                ulp = float(np.nextafter(h, np.inf) - h)
+                case = mk_case(rng, 'flat', R, C, vr, vc, res=(1.0, 1.0), dtype='float64',
+                               oe=ulp if kind == 8 else -ulp, te=rng.choice([0, ulp]))
+                case['grid'] = [[h] * C for _ in range(R)]
+                for _ in range(rng.randint(0, 2)):
+                    case['grid'][rng.randrange(R)][rng.randrange(C)] = float(np.nextafter(h, np.inf if rng.random() < 0.5 else -np.inf))
+                yield tag(case, 'ulp-ties')
+    # 4. call sequences
+    for rep in range(1 if quick else 10):
+        for seq in ['repeat', 'interleave', 'derived-slice', 'derived-step', 'assign_coords', 'copy', 'astype']:
+            for dt in ['float64', 'int32']:
+                R, C = rng.randint(3, 6), rng.randint(3, 6)
+                fam = rng.choice(['forest', 'checker', 'spike', 'plateau', 'ridge_row'])
+                yield tag(mk_case(rng, fam, R, C, rng.randrange(R), rng.randrange(C), res=rng.choice([(1.0, 1.0), (2.0, 0.5), (-1.0, 1.0)]),
+                                  oe=rng.choice([0, 1, 2]), dtype=dt), 'seq-' + seq, seq=seq)
+    # 6. coordinates: integer and float32 coordinate arrays, far origins with fractional spacing
+    for rep in range(1 if quick else 10):
+        for kind in range(8):
+            R, C = rng.randint(3, 6), rng.randint(3, 7)
+            vr, vc = rng.randrange(R), rng.randrange(C)
+            fam = rng.choice(fams)
+            if kind < 2:
+                case = mk_case(rng, fam, R, C, vr, vc, res=[(1.0, 1.0), (3.0, -2.0)][kind])
+                case['xs'] = [float(math.floor(v)) for v in case['xs']]; case['ys'] = [float(math.floor(v)) for v in case['ys']]
+                case['x'], case['y'] = case['xs'][vc], case['ys'][vr]
+                yield tag(case, 'coords-int64', coord_dtype='int64', xy_type=rng.choice(['int', 'float']))
+            elif kind < 4:
+                case = mk_case(rng, fam, R, C, vr, vc, res=[(0.5, 0.25), (-2.0, 8.0)][kind - 2])
+                yield tag(case, 'coords-float32', coord_dtype='float32')
+            else:
+                x0, y0, ew, ns = [(1e6, -1e7, 0.1, 0.1), (4.5e8, 2.5e6, 30.0, -30.0), (-179.95, 89.95, 0.1, -0.1),
+                                  (1e6 + 0.05, 1e6 + 0.05, 1e6, 1e6)][kind - 4]
+                case = mk_case(rng, fam, R, C, vr, vc, res=(1.0, 1.0))
+                case['xs'] = [x0 + ew * i for i in range(C)]; case['ys'] = [y0 + ns * i for i in range(R)]
+                case['x'], case['y'] = case['xs'][vc], case['ys'][vr]
+                if rng.random() < 0.4:
+                    case['x'] += 0.3 * ew
+                yield tag(case, 'coords-origin-%d' % (kind - 4))
+    # 5. very large grids (thorough only: the O(n^2) oracle takes seconds)
+    if not quick:
+        for i in range(6):
+            R, C = [(30, 30), (24, 40), (40, 18)][i % 3]
+            cells = observer_cells(R, C, False)
+            vr, vc = cells[(5 * i) % len(cells)]
+            yield tag(mk_case(rng, ['forest', 'dec', 'checker'][i % 3], R, C, vr, vc), 'huge-grid')
+
+
 def process(ctx, cases):
     """run every case in the forked worker, then oracle + model comparison in this process"""
     results, crash = forked_run(cases)
@@ -1233,7 +1521,7 @@ def process(ctx, cases):
 
 
 def run(ctx):
-    cases = list(gen_cases(ctx)) + list(gen_tree_cases(ctx))
+    cases = list(gen_cases(ctx)) + list(gen_tree_cases(ctx)) + list(gen_theme_cases(ctx))
     vpending, tpending, crash = process(ctx, cases)
     ctx.exhaustive = False
     compare_model(ctx, vpending)
